@@ -16,8 +16,8 @@
       (they come from a fragment, incl. single-H fragments) keep their own;
     * explicitly written hydrogens present before the completion are still present afterwards. *)
 From Coq Require Import String.
-From Coq Require Import List Ascii ZArith Bool.
-From CGV Require Import Base.PyBase Base.PyVal Base.NxGraph Gen.HydroGen Hydro.Hydrogens.
+From Coq Require Import List Ascii ZArith Bool Floats.
+From CGV Require Import Base.PyBase Base.PyVal Base.NxGraph Gen.HydroGen Hydro.Hydrogens Hydro.Fragments.
 Import ListNotations.
 Open Scope Z_scope.
 
@@ -124,6 +124,41 @@ Definition holds_C09 (before : list (Z * attrs)) (final : obs_graph) : nat :=
   | n => n
   end.
 
+(** ------------------------------------------------------------ direct validation of the helper models *)
+(** one call of a modelled helper with what the library / the implementation returned (None = raised) *)
+Inductive extra :=
+| XValence (a : attrs) (r : option (list Z))
+| XMissing (g : graph) (k : Z) (r : option Z)
+| XFill (respect : bool) (g : graph) (r : option obs_graph)
+| XAddH (g : graph) (r : option obs_graph)
+| XRemoveH (g : graph) (r : option obs_graph)
+| XFragment (g0 : graph) (name : pystr) (bonding : list (Z * pyval)) (ez : list (Z * pyval))
+            (attributes : list (Z * attrs)) (r : option obs_graph)
+| XMass (g : graph) (car : option graph) (r : option float).
+
+Fixpoint zlist_eqb (a b : list Z) : bool :=
+  match a, b with [], [] => true | x :: a', y :: b' => Z.eqb x y && zlist_eqb a' b' | _, _ => false end.
+Definition graph_res_ok (m : res graph) (r : option obs_graph) : bool :=
+  match m, r with
+  | Ok g, Some o => obs_eqb (observe g) o
+  | Err _, None => true
+  | _, _ => false
+  end.
+Definition extra_ok (x : extra) : bool :=
+  match x with
+  | XValence a r => match valence_of a, r with Ok l, Some l' => zlist_eqb l l' | Err _, None => true | _, _ => false end
+  | XMissing g k r => match bonds_missing g k, r with Ok z, Some z' => Z.eqb z z' | Err _, None => true | _, _ => false end
+  | XFill respect g r => graph_res_ok (fill_valence respect g) r
+  | XAddH g r => graph_res_ok (add_explicit_hydrogens g) r
+  | XRemoveH g r => graph_res_ok (remove_explicit_hydrogens g) r
+  | XFragment g0 name b ez ats r => graph_res_ok (read_fragment_post g0 name b ez ats) r
+  | XMass g car r => match compute_mass g car, r with
+                     | Ok f, Some f' => PrimFloat.eqb f f'
+                     | Err _, None => true
+                     | _, _ => false
+                     end
+  end.
+
 (** ------------------------------------------------------------ cases *)
 (** c_before: molecule when rebuild_h_atoms is entered; c_car: recorded state right after
     correct_aromatic_rings (None = SyntaxError); c_after: molecule when rebuild_h_atoms returned
@@ -131,15 +166,16 @@ Definition holds_C09 (before : list (Z * attrs)) (final : obs_graph) : nat :=
     step raised or the case is outside the property's domain, then nothing is judged);
     c_skip: the input never reached rebuild_h_atoms. *)
 Record case := { c_skip : bool; c_before : graph; c_car : option graph;
-                 c_after : option obs_graph; c_final : option obs_graph }.
+                 c_after : option obs_graph; c_final : option obs_graph; c_extra : list extra }.
 
 Definition corr_ok (c : case) : bool :=
-  if c_skip c then true else
-  match rebuild_h_atoms_default (c_before c) (c_car c), c_after c with
-  | Ok g, Some o => obs_eqb (observe g) o
-  | Err _, None => true
-  | _, _ => false
-  end.
+  forallb extra_ok (c_extra c) &&
+  (if c_skip c then true else
+   match rebuild_h_atoms_default (c_before c) (c_car c), c_after c with
+   | Ok g, Some o => obs_eqb (observe g) o
+   | Err _, None => true
+   | _, _ => false
+   end).
 
 (** the transcript must satisfy the contract under which the theorems are stated *)
 Definition transcript_ok (c : case) : bool :=
